@@ -28,6 +28,7 @@ structure LbEp where
   pipe   : Bool := false
   health : Nat
   weight : Nat
+  mtls   : Bool := false   -- transport-socket metadata `tlsMode: istio`
   deriving DecidableEq, Repr, Inhabited
 
 /-- A `LocalityLbEndpoints` after the network filter. -/
@@ -43,7 +44,7 @@ def two32 : Nat := 4294967296
 def lbOf (e : Ep) : LbEp :=
   { host := e.addrs.headD "", port := e.eport, pipe := e.eport = 0,
     health := if (e.labels.lookup drainingLabel).getD "" != "" then 3 else e.health,
-    weight := lbWeight e }
+    weight := lbWeight e, mtls := e.tls == "istio" }
 
 def Group.toOut (g : Group) : OutGroup := { loc := g.loc, eps := g.eps.map lbOf, weight := g.weight }
 
@@ -141,7 +142,7 @@ def gwWeights (b : Builder) (all : List Gw) (eps : List Ep) : List (Gw × Nat) :
   eps.foldl (netStep b all) []
 
 def gwEndpoint (gw : Gw) (w : Nat) : LbEp :=
-  { host := gw.addr, port := gw.port, health := 0, weight := if w = 0 then 1 else w }
+  { host := gw.addr, port := gw.port, health := 0, weight := if w = 0 then 1 else w, mtls := true }
 
 /-- One locality through the filter: directly reachable members, then one endpoint per gateway used
     (sorted), `refreshWeight` (uint32 sum, absent = 0 when the locality became empty). -/
